@@ -235,7 +235,11 @@ func search(seed uint64, n int, dc string, repo string, mode string) {
 			cases = append(cases, cs{m, "seed-mut"})
 		}
 	}
-	for i := 0; len(cases) < n; i++ {
+	for _, b := range bx.Exhaustive() {
+		cases = append(cases, cs{b, "gen"})
+	}
+	// generated boxes and trees always get a share of the budget (at least n/4 of them)
+	for i, quota := 0, len(cases)+n/4; len(cases) < n || len(cases) < quota; i++ {
 		var b []byte
 		if i%3 == 2 {
 			b = bx.GenTree(r)
